@@ -12,6 +12,41 @@ import subprocess
 import sys
 import traceback
 
+# A simulated calendar date / clock (FV_FAKE_DATE=YYYY-MM-DD), installed BEFORE the project is imported: generated text
+# may not depend on when it is generated.
+if os.environ.get("FV_FAKE_DATE"):
+    import datetime as _dt
+    import time as _time
+    _y, _m, _d = (int(x) for x in os.environ["FV_FAKE_DATE"].split("-"))
+
+    class _FakeDate(_dt.date):
+        @classmethod
+        def today(cls):
+            return cls(_y, _m, _d)
+
+    class _FakeDateTime(_dt.datetime):
+        @classmethod
+        def now(cls, tz=None):
+            return cls(_y, _m, _d, 12, 0, 0, tzinfo=tz)
+
+        @classmethod
+        def utcnow(cls):
+            return cls(_y, _m, _d, 12, 0, 0)
+
+        @classmethod
+        def today(cls):
+            return cls(_y, _m, _d, 12, 0, 0)
+    _ts = _dt.datetime(_y, _m, _d, 12, 0, 0).timestamp()
+    _dt.date, _dt.datetime = _FakeDate, _FakeDateTime
+    _ol, _og, _os, _oc = _time.localtime, _time.gmtime, _time.strftime, _time.ctime
+    _time.time = lambda: _ts
+    _time.time_ns = lambda: int(_ts * 1e9)
+    _time.localtime = lambda s=None: _ol(_ts if s is None else s)
+    _time.gmtime = lambda s=None: _og(_ts if s is None else s)
+    _time.strftime = lambda fmt, t=None: _os(fmt, _time.localtime() if t is None else t)
+    _time.ctime = lambda s=None: _oc(_ts if s is None else s)
+    _time.asctime = lambda t=None: _os("%a %b %d %H:%M:%S %Y", _time.localtime() if t is None else t)
+
 sys.path.insert(0, __file__.rsplit("/", 1)[0])
 import glue_py as G  # noqa: E402
 from formak import cpp  # noqa: E402
@@ -20,9 +55,10 @@ VERIF = os.path.dirname(os.path.dirname(os.path.dirname(os.path.abspath(__file__
 REPO = os.environ.get("VERIF_REPO", "/repo")
 
 
-def generate(defn, cse, k, max_dt, decl, namespace="fv"):
+def generate(defn, cse, k, max_dt, decl, namespace="fv", cfg=None):
     syms, model, sensors, pn, sn, cm = G.build(defn, decl)
-    cfg = cpp.Config(common_subexpression_elimination=cse, innovation_filtering=(k if k is not None else 0.0), max_dt_sec=max_dt)
+    if cfg is None:
+        cfg = cpp.Config(common_subexpression_elimination=cse, innovation_filtering=(k if k is not None else 0.0), max_dt_sec=max_dt)
     gen = cpp._generate_ekf_function_bodies("generated/fv_filter.h", namespace, model, pn, sensors, sn, cm, cfg)
     header = "\n".join(cpp.header_from_ast(generator=gen))
     source = "\n".join(cpp.source_from_ast(generator=gen))
@@ -149,6 +185,15 @@ def run_job(job, workroot):
         for _ in range(job.get("repeat", 0)):
             h2, s2 = generate(defn, job["cse"], job.get("k"), job.get("max_dt", 0.1), job.get("decl"))
             shas.append([hashlib.sha256(h2.encode()).hexdigest(), hashlib.sha256(s2.encode()).hexdigest()])
+        # one Config object handed to two generations: it must come back unchanged and give the same text twice
+        import dataclasses as _dc
+        shared = cpp.Config(common_subexpression_elimination=job["cse"], innovation_filtering=(job.get("k") if job.get("k") is not None else 0.0), max_dt_sec=job.get("max_dt", 0.1))
+        before = _dc.asdict(shared)
+        for _ in range(2):
+            h3, s3 = generate(defn, job["cse"], job.get("k"), job.get("max_dt", 0.1), job.get("decl"), cfg=shared)
+            shas.append([hashlib.sha256(h3.encode()).hexdigest(), hashlib.sha256(s3.encode()).hexdigest()])
+        out["config_unchanged"] = _dc.asdict(shared) == before
+        out["config_after"] = {k_: v_ for k_, v_ in _dc.asdict(shared).items()}
         out["shas"] = shas
         from formak import python as _py
         syms, model, sensors, pn, sn, cm = G.build(defn, job.get("decl"))
